@@ -47,6 +47,7 @@ def run(tier):
         H.eol_scan(prog, rep)
         H.header_scan(prog, rep)
         H.header_split(prog, rep)
+        H.header_lookup(prog, rep)
         if H.header_index(prog, rep) < 4:
             rep.defer_broken("W9-index: fewer than 4 subscripts of the parsed-header array found")
         H.chunk_framing(prog, rep)
